@@ -81,7 +81,7 @@ def collect(prop: str) -> tuple[dict, list]:
 
 
 def whole_tree_variants(prop: str, baseline: list) -> tuple[dict, list]:
-    """Run the rule set on the three behaviour-preserving whole-tree variants (fv/variants.py) and compare every obligation
+    """Run the rule set on the five behaviour-preserving whole-tree variants (fv/variants.py) and compare every obligation
     (rule, construct, status) with the run on the tree itself.  Any difference is a checker defect (problem kind `noisy`)."""
     import tempfile as _tf
 
@@ -91,7 +91,7 @@ def whole_tree_variants(prop: str, baseline: list) -> tuple[dict, list]:
     summary: dict = {}
     problems: list = []
     mod = importlib.import_module(f"fv.rules.{prop.lower()}")
-    for kind, make in (("rename-locals", variants.make_rename), ("hoist-arguments", variants.make_extract), ("invert-guards", variants.make_invert), ("reorder-assignments", variants.make_reorder)):
+    for kind, make in (("rename-locals", variants.make_rename), ("hoist-arguments", variants.make_extract), ("invert-guards", variants.make_invert), ("reorder-assignments", variants.make_reorder), ("early-exit-to-else", variants.make_elsify)):
         tmp = Path(_tf.mkdtemp(prefix="fvvar_"))
         try:
             n = make(REPO, tmp)
